@@ -72,6 +72,11 @@ def rand_scenario(rng, max_hosts=5, big=False, like=None):
     sens = {}
     for a in rng.sample(addrs, rng.randint(1, min(3, len(addrs)))):
         sens[a] = rng.choice([1, 10, 100, 200, 0.5, 37.25]) if rng.random() < 0.8 else rng.choice([1, 2, 0.5])
+    if len(sens) >= 2 and rng.random() < 0.06:
+        # values that are exact in the float32 tensor one by one but whose sum is not (2^24 + 1): anything that
+        # decides by an accumulated float32 total instead of looking at the hosts goes wrong here
+        ks = list(sens)
+        sens[ks[0]], sens[ks[1]] = 16777216, 1
     fw = {}
     for i in range(n):
         for j in range(n):
